@@ -2819,6 +2819,7 @@ class TrackFragmentRunBox(FullBox):
             rv["first_sample_flags"] = struct.unpack('>I', src.read(4))[0]
         else:
             rv["first_sample_flags"] = 0
+        clz.check_sample_count(src, rv)
         # print('Trun: count=%d offset=%d flags=%x'%(rv["sample_count,rv["data_offset,rv["first_sample_flags))
         rv["samples"] = []
         offset = rv["data_offset"]
@@ -2828,6 +2829,31 @@ class TrackFragmentRunBox(FullBox):
             rv["samples"].append(ts)
             offset += ts.size
         return rv
+
+    @classmethod
+    def check_sample_count(clz, src, rv) -> None:
+        """
+        Sanity check of sample_count, before one object per sample is created
+        """
+        per_sample_size = 0
+        for flag in (clz.sample_duration_present, clz.sample_size_present,
+                     clz.sample_flags_present,
+                     clz.sample_composition_time_offsets_present):
+            if rv["flags"] & flag:
+                per_sample_size += 4
+        pos = src.tell()
+        if per_sample_size:
+            limit = (rv["position"] + rv["size"] - pos) // per_sample_size
+        else:
+            # there is nothing in this box for each sample. A run can't have
+            # more samples than the file has bytes (a lazily loaded box only
+            # knows the end of its own data)
+            src.seek(0, 2)
+            limit = max(src.tell(), 1 << 20)
+            src.seek(pos)
+        if rv["sample_count"] > limit:
+            raise ValueError(
+                f'trun: sample_count {rv["sample_count"]} is not possible (limit {limit})')
 
     def parse_samples(self, src, nal_length_field_length):
         tfhd = self.parent.tfhd
